@@ -3,6 +3,7 @@ package main
 import (
 	"bytes"
 	"context"
+	"crypto/sha1"
 	"encoding/json"
 	"flag"
 	"fmt"
@@ -503,7 +504,7 @@ func (r *recorder) run(sc scenario) {
 			oids = append(oids, r.oid(o))
 		}
 		ev := map[string]interface{}{"ev": "after", "gen": gen, "err": eerr != nil || panicked != "", "oids": oids, "errtext": "",
-			"hooked": r.epochLogged}
+			"hooked": r.epochLogged, "pophash": popHash(pop)}
 		if eerr != nil {
 			ev["errtext"] = eerr.Error()
 		}
@@ -516,6 +517,30 @@ func (r *recorder) run(sc scenario) {
 			return
 		}
 	}
+}
+
+// popHash renders the genetic content of the whole population (weights bit for bit); it is not read by the trace
+// specification: equal hashes from a build with and a build without the hook sites show that the hooks and the recorder
+// leave the evolution (and so the random stream) untouched.
+func popHash(pop *genetics.Population) string {
+	h := sha1.New()
+	for _, o := range pop.Organisms {
+		fmt.Fprintf(h, "o %d %d;", o.Genotype.Id, o.Generation)
+		for _, t := range o.Genotype.Traits {
+			fmt.Fprintf(h, "t %d", t.Id)
+			for _, x := range t.Params {
+				fmt.Fprintf(h, " %x", math.Float64bits(x))
+			}
+		}
+		for _, n := range o.Genotype.Nodes {
+			fmt.Fprintf(h, "n %d %d %d %d;", n.Id, n.NeuronType, n.ActivationType, traitId(n.Trait))
+		}
+		for _, g := range o.Genotype.Genes {
+			fmt.Fprintf(h, "g %d %d %d %t %t %x %x %d;", g.InnovationNum, g.Link.InNode.Id, g.Link.OutNode.Id, g.Link.IsRecurrent,
+				g.IsEnabled, math.Float64bits(g.Link.ConnectionWeight), math.Float64bits(g.MutationNum), traitId(g.Link.Trait))
+		}
+	}
+	return fmt.Sprintf("%x", h.Sum(nil))
 }
 
 func record(args []string) int {
